@@ -889,10 +889,19 @@ class Executor:
     def operand(self, fr, o):
         o = o.strip()
         if o.startswith("copy ") or o.startswith("move "):
-            v = self.read_place(fr, parse_place(o[5:]))
+            pl = parse_place(o[5:])
+            v = self.read_place(fr, pl)
             if o.startswith("copy ") and isinstance(v, SeqObj) and isinstance(v.ln, int):
-                # only arrays are Copy among the sequence types (Vec and slices are moved or borrowed): a copy is a new value
-                return SeqObj(self.fresh_name(v.name + "_copy"), v.elem_ty, [Cell(c.v) for c in v.items], v.ln, v.max)
+                # an array ([T; N]) is a Copy VALUE: copying it makes a new value (harness objects standing for Vec / slices behind
+                # references are never array-typed places)
+                ty = None
+                if pl[0] == "local":
+                    fobj = fr.get("__f")
+                    ty = fobj.v.locals.get(pl[1]) if fobj is not None and fobj.v is not None else None
+                elif pl[0] == "field" and len(pl) > 3:
+                    ty = pl[3]
+                if ty and re.match(r"^\[.+; *\w+\]$", ty.strip()):
+                    return SeqObj(self.fresh_name(v.name + "_copy"), v.elem_ty, [Cell(c.v) for c in v.items], v.ln, v.max)
             return v
         if o.startswith("const "):
             m = re.search(r"::(promoted\[\d+\])$", o)
@@ -1598,6 +1607,7 @@ class Executor:
         fr = {name: Cell(None, name) for name in f.locals}
         fr["_0"] = fr.get("_0") or Cell(None, "_0")
         fr["__fn"] = Cell(f.name)
+        fr["__f"] = Cell(f)
         fr["__generics"] = Cell(getattr(self, "pending_generics", None))
         self.pending_generics = None
         if len(args) != len(f.params):
